@@ -238,7 +238,10 @@ def net_case(draw, tier='quick'):
         # pressure-dependent demand next to such a pump: single period / demand-driven keeps the inconclusive share low
         spec['opts']['demand_model'] = 'DD'
         spec['opts']['duration'] = 0
-    return {'mode': 'net', 'spec': spec}
+    case = {'mode': 'net', 'spec': spec}
+    if any(p['type'] == 'HEAD' for p in spec['pumps']) and draw(st.integers(0, 2)) == 0:
+        case['edit_curves'] = draw(st.sampled_from([0.8, 1.25, 0.6]))
+    return case
 
 
 def _augment(draw, spec):
@@ -707,7 +710,7 @@ def _judge_link(spec, kind, l, st, q, hs, he, setting, approx, fits):
     return None
 
 
-def net_check(spec):
+def net_check(spec, edit=None):
     tags = netgen.features(spec) + ['mode:net']
     if spec.get('downhill_power_pump'):
         tags.append('downhill_power_pump')
@@ -716,6 +719,32 @@ def net_check(spec):
         wn.reset_initial_values()
     except Exception as e:
         return fail(exc_bucket(e, 'build'), 'building the model raised %r' % e, tags)
+    out = _net_pass(spec, wn, tags)
+    if edit is None or out['status'] != 'pass' or not any(p['type'] == 'HEAD' for p in spec['pumps']):
+        return out
+    # history: the points of the pump curves are edited in place (same curve object, same name), the model is reset
+    # and simulated again; the pumps must then lie on the curve fitted to the *current* points
+    import copy
+    spec2 = copy.deepcopy(spec)
+    for p in spec2['pumps']:
+        if p['type'] == 'HEAD':
+            c = spec2['curves'][p['curve']]
+            if not c.get('edited'):
+                c['pts'] = [[q, round(h * edit, 4)] for q, h in c['pts']]
+                c['edited'] = True
+                wn.get_curve(p['curve']).points = [tuple(pt) for pt in c['pts']]
+    wn.reset_initial_values()
+    tags2 = list(out['tags']) + ['history:curve_points_edited_in_place']
+    out2 = _net_pass(spec2, wn, tags2)
+    if out2['status'] == 'fail':
+        return fail('after_curve_edit/' + out2['bucket'], 'second run after editing the pump curve points in place (x%s): %s'
+                    % (edit, out2['detail']), out2['tags'])
+    if out2['status'] == 'inconclusive':
+        return passed(out['nontrivial'], tags2 + ['second_run_inconclusive'])
+    return passed(out['nontrivial'] or out2['nontrivial'], out2['tags'])
+
+
+def _net_pass(spec, wn, tags):
     approx = spec['opts']['hw_approx']
     run = S.run_wntr(wn, hw_approx=approx, maxiter=MAXITER)
     if run.exception is not None:
@@ -781,4 +810,4 @@ def net_check(spec):
 def check(case):
     if case['mode'] == 'model':
         return model_check(case)
-    return net_check(case['spec'])
+    return net_check(case['spec'], case.get('edit_curves'))
